@@ -967,6 +967,8 @@ def _validate_matrix(matrix: np.ndarray, max_conn_mat: np.ndarray, src_node_sett
                 return False
             elif override_ok == 1:
                 continue
+        elif src_n_override.shape[1] > 0 and src_n_override[i, 0] != -1:
+            return False  # More connections than the highest nr in the overridden connection list
         if not _check_conns(n_src, src_node_settings[i, :], max_src[i]):
             return False
 
@@ -979,6 +981,8 @@ def _validate_matrix(matrix: np.ndarray, max_conn_mat: np.ndarray, src_node_sett
                 return False
             elif override_ok == 1:
                 continue
+        elif tgt_n_override.shape[1] > 0 and tgt_n_override[i, 0] != -1:
+            return False  # More connections than the highest nr in the overridden connection list
         if not _check_conns(n_tgt, tgt_node_settings[i, :], max_tgt[i]):
             return False
 
